@@ -116,8 +116,15 @@ SPECIAL = []
 for _w, _stmt in [("assign", "Klass = 5"), ("typed", "Klass: int = 5"), ("+=", "Klass += 1"),
                   ("loopcounter", "from 0 to 3, Klass {\n}"), ("unpack", "[Klass, u2] = [1, 2]"),
                   ("?=stmt", "Klass ?= give()")]:
-    for _ctx in ["same", "block", "fn", "while"]:
+    for _ctx in ["same", "block", "fn", "while", "own-ctor", "own-method", "own-method-closure"]:
         SPECIAL.append(("class", _w, _ctx, _stmt))
+# `modify` of a class / module name: with a value of the same type (so that only const-ness can stop it) and with another type
+for _w, _stmt in [("modify-same-type", "modify Klass = Klass"), ("modify", "modify Klass = 5")]:
+    for _ctx in ["fn", "fn-in-fn", "method", "own-ctor", "own-method", "own-method-closure"]:
+        SPECIAL.append(("class", _w, _ctx, _stmt))
+for _w, _stmt in [("modify-same-type", "modify mod = mod"), ("modify", "modify mod = 5")]:
+    for _ctx in ["fn", "fn-in-fn", "method"]:
+        SPECIAL.append(("import", _w, _ctx, _stmt))
 for _w, _stmt in [("assign", "mod = 5"), ("typed", "mod: int = 5"), ("+=", "mod += 1"),
                   ("loopcounter", "from 0 to 3, mod {\n}"), ("unpack", "[mod, u2] = [1, 2]"),
                   ("?=stmt", "mod ?= give()")]:
@@ -140,8 +147,15 @@ MOD_SRC = ('export const cmem: int = 5\nexport vmem: int = 5\nexport const lmem:
 def special_program(kind, stmt, ctx):
     give = "give = fn() -> int? {\n return 7\n}"
     if kind == "class":
+        if ctx.startswith("own-"):
+            # the write sits inside the class's own constructor / method / a closure created in its method
+            ind = "\n".join("  " + l for l in stmt.split("\n"))
+            in_ctor = ind if ctx == "own-ctor" else ""
+            in_m = ind if ctx == "own-method" else ("  cl = fn() {\n" + "\n".join("   " + l for l in stmt.split("\n")) + "\n  }\n  cl()" if ctx == "own-method-closure" else "")
+            cls = "class Klass {\n v: int\n constructor(self) {\n  self.v = 5\n" + in_ctor + "\n }\n fn m(self) {\n" + in_m + "\n }\n}"
+            return {"x.ms": "\n".join([give, cls, "ob1 = Klass()", "ob1.m()", "ob2 = Klass()", "print ob2.v"]) + "\n"}, ["5"]
         return {"x.ms": "\n".join(["class Klass {\n v: int\n constructor(self) {\n  self.v = 5\n }\n}", give,
-                                   wrap(ctx, stmt), "obj = Klass()", "print obj.v"]) + "\n"}, ["5"]
+                                   wrap(ctx, stmt), "ob1 = Klass()", "print ob1.v"]) + "\n"}, ["5"]
     if kind == "import":
         return {"x.ms": "\n".join(["import mod", give, wrap(ctx, stmt), "print mod.peek()"]) + "\n", "mod.ms": MOD_SRC}, ["11"]
     if kind.startswith("member-"):
@@ -156,7 +170,8 @@ class C10(Check):
     level = "fault_enumeration"
     rule = ("all expressible (declaration context in {module, function, block, class name, imported module, exported member}, "
             "write form in 16 assignment forms, write context in {same scope, block, nested block, else, while, from, nested function, "
-            "function in function, method}, constant type) triples; each const case is paired with a positive control (same write on a "
+            "function in function, method; for class names also the class's own constructor / method / a closure in its method, and `modify` with a value of the "
+            "same type}, constant type) triples; each const case is paired with a positive control (same write on a "
             "non-const name must compile and run).  Non-trivial = the triple is syntactically expressible and its control is accepted.")
     assumptions = ["a plain (non-`modify`) assignment inside a nested function declares a local by the language's rules: there the "
                    "program may be accepted, but the constant must still hold its initializer afterwards"]
@@ -186,13 +201,21 @@ class C10(Check):
         if case[0] == "s":
             kind, w, ctx, stmt = SPECIAL[case[1]]
             files, expect = special_program(kind, stmt, ctx)
+            # positive control: the same program with a harmless statement instead of the write must compile and print the expected lines
+            cfiles, _ = special_program(kind, "ctl9 = 1", ctx)
+            dc = driver.fresh_dir()
+            driver.write_files(dc, cfiles)
+            rc = driver.run(["run", "x.ms", "-q"], dc)
+            if rc.exit != 0 or rc.lines()[-len(expect):] != expect:
+                return {"outcome": "control-broken", "machinery": f"special declaration {kind}/{ctx}: the program without the write does not run: "
+                                                                  f"{(rc.out + rc.err)[-300:]}"}
             d = driver.fresh_dir()
             driver.write_files(d, files)
             res = driver.run(["run", "x.ms", "-q"], d)
             detail = {"files": files, "res": res.brief()}
             rejected = res.exit != 0 and "Did not compile" in res.err
-            in_fn = ctx in ("fn", "fn-in-fn", "method")
-            plain_local = in_fn and not kind.startswith("member-")
+            in_fn = ctx in ("fn", "fn-in-fn", "method", "own-ctor", "own-method", "own-method-closure")
+            plain_local = in_fn and not kind.startswith("member-") and not w.startswith("modify")
             if res.cls in ("panic", "abort", "timeout"):
                 if "compiler/src" in res.err:
                     return {"outcome": "compiler-panic", "nontrivial": True, "tags": ["compiler-panic"]}
